@@ -21,13 +21,17 @@ FAM = {
         "unknown": "(frobnicate)"}),
     "fmt_enum": dict(derives=["Display"], item="{A} enum S {{ FooBar, Baz }}", name="display", atoms={
         "lit": '("x")', "lit_wrap": '("<{_variant}>")', "rename_snake": '(rename_all = "snake_case")', "rename_snake2": '(rename_all = "snake_case")',
-        "rename_kebab": '(rename_all = "kebab-case")', "rename_bad": '(rename_all = "bogus_case")', "unknown": "(frobnicate)"}),
+        "rename_kebab": '(rename_all = "kebab-case")', "bound_u8": "(bound(u8: Copy))", "rename_bad": '(rename_all = "bogus_case")', "unknown": "(frobnicate)"}),
     "debug_field": dict(derives=["Debug"], item="struct S {{ {A} a: i32, b: u8 }}", name="debug", atoms={
         "skip": "(skip)", "ignore": "(ignore)", "lit": '("{a}")', "lit_comma": '("{a}",)', "unknown": "(frobnicate)"}),
     "debug_field_cfmt": dict(derives=["Debug"], item='#[debug("x")] struct S {{ {A} a: i32, b: u8 }}', name="debug", atoms={
         "skip": "(skip)", "ignore": "(ignore)", "lit": '("{a}")', "unknown": "(frobnicate)", "legacy_fmt": '(fmt = "x")'}),
     "debug_field_vfmt": dict(derives=["Debug"], item='enum S {{ #[debug("x")] V {{ {A} a: i32, b: u8 }}, W }}', name="debug", atoms={
         "skip": "(skip)", "ignore": "(ignore)", "lit": '("{a}")', "unknown": "(frobnicate)", "legacy_fmt": '(fmt = "x")'}),
+    "debug_enum0": dict(derives=["Debug"], item="{A} enum S {{}}", name="debug", atoms={
+        "lit": '("x")', "lit_b": '("{}", 1)', "bound_u8": "(bound(u8: Copy))", "unknown": "(frobnicate)"}),
+    "debug_enum1": dict(derives=["Debug"], item="{A} enum S {{ A, B(i32) }}", name="debug", atoms={
+        "lit": '("x")', "lit_b": '("{}", 1)', "bound_u8": "(bound(u8: Copy))", "unknown": "(frobnicate)"}),
     "from_variant": dict(derives=["From"], item="enum S {{ {A} A(i64), B(u8) }}", name="from", atoms={
         "from": "", "skip": "(skip)", "ignore": "(ignore)", "forward": "(forward)", "ty_a": "(i8)", "ty_b": "(i16)", "ty_ab": "(i8, i16)",
         "ty_ab_comma": "(i8, i16,)", "legacy_types": "(types(i8))"}),
